@@ -216,4 +216,104 @@ theorem phi_eq_km_phiC (zm L : ℝ) (hzm : 0 < zm) (hL : L ≠ 0) : phi RC (zm /
     norm_num
     ring
 
+/-- the smoothing window of `estimateZ0` is the CIRCULAR window `[kk − h, kk + 1 + h)` modulo 360: the
+wrap thresholds (90 / 270) and the inclusive lower / exclusive upper edge select exactly the observations
+whose direction, shifted by a whole number of turns, falls in the window — for every bin `kk < 360`, every
+direction in `[0, 360)` and every half width `0 ≤ h ≤ 89` -/
+theorem z0_window_circular (kk : ℕ) (hkk : kk < 360) (h wd : ℝ) (hh0 : 0 ≤ h) (hh : h ≤ 89)
+    (hw0 : 0 ≤ wd) (hw : wd < 360) :
+    z0InWindow RC kk h wd = true ↔
+      ∃ m : ℤ, (kk : ℝ) - h ≤ wd + 360 * m ∧ wd + 360 * m < (kk : ℝ) + 1 + h := by
+  have hk : ((kk : ℕ) : ℝ) < 360 := by exact_mod_cast hkk
+  have hk0 : (0 : ℝ) ≤ ((kk : ℕ) : ℝ) := Nat.cast_nonneg kk
+  simp only [z0InWindow, z0Wrap, Bool.and_eq_true, decide_eq_true_eq]
+  rc_norm
+  norm_num
+  by_cases c1 : kk < 90
+  · have hk1 : ((kk : ℕ) : ℝ) ≤ 89 := by exact_mod_cast (show kk ≤ 89 by omega)
+    simp only [c1, if_true]
+    by_cases c2 : (270 : ℝ) < wd
+    · simp only [c2, if_true]
+      constructor
+      · rintro ⟨a, b⟩; exact ⟨-1, by push_cast; linarith, by push_cast; linarith⟩
+      · rintro ⟨m, a, b⟩
+        have m1 : (m : ℝ) < 0 := by nlinarith
+        have m2 : (-2 : ℝ) < m := by nlinarith
+        have : m = -1 := by
+          have a1 : m < 0 := by exact_mod_cast m1
+          have a2 : -2 < m := by exact_mod_cast m2
+          omega
+        subst this
+        constructor <;> (push_cast at a b; linarith)
+    · simp only [c2, if_false]
+      constructor
+      · rintro ⟨a, b⟩; exact ⟨0, by simpa using a, by simpa using b⟩
+      · rintro ⟨m, a, b⟩
+        have m1 : (m : ℝ) < 1 := by nlinarith
+        have m2 : (-1 : ℝ) < m := by nlinarith
+        have : m = 0 := by
+          have a1 : m < 1 := by exact_mod_cast m1
+          have a2 : -1 < m := by exact_mod_cast m2
+          omega
+        subst this
+        constructor <;> (push_cast at a b; linarith)
+  · simp only [c1, if_false]
+    by_cases c3 : 270 < kk
+    · have hk3 : (271 : ℝ) ≤ ((kk : ℕ) : ℝ) := by exact_mod_cast (show 271 ≤ kk by omega)
+      simp only [c3, if_true]
+      by_cases c4 : wd < 90
+      · simp only [c4, if_true]
+        constructor
+        · rintro ⟨a, b⟩; exact ⟨1, by push_cast; linarith, by push_cast; linarith⟩
+        · rintro ⟨m, a, b⟩
+          have m1 : (m : ℝ) < 2 := by nlinarith
+          have m2 : (0 : ℝ) < m := by nlinarith
+          have : m = 1 := by
+            have a1 : m < 2 := by exact_mod_cast m1
+            have a2 : 0 < m := by exact_mod_cast m2
+            omega
+          subst this
+          constructor <;> (push_cast at a b; linarith)
+      · simp only [c4, if_false]
+        constructor
+        · rintro ⟨a, b⟩; exact ⟨0, by simpa using a, by simpa using b⟩
+        · rintro ⟨m, a, b⟩
+          have m1 : (m : ℝ) < 1 := by nlinarith
+          have m2 : (-1 : ℝ) < m := by nlinarith
+          have : m = 0 := by
+            have a1 : m < 1 := by exact_mod_cast m1
+            have a2 : -1 < m := by exact_mod_cast m2
+            omega
+          subst this
+          constructor <;> (push_cast at a b; linarith)
+    · have hk4 : (90 : ℝ) ≤ ((kk : ℕ) : ℝ) := by exact_mod_cast (show 90 ≤ kk by omega)
+      have hk5 : ((kk : ℕ) : ℝ) ≤ 270 := by exact_mod_cast (show kk ≤ 270 by omega)
+      simp only [c3, if_false]
+      constructor
+      · rintro ⟨a, b⟩; exact ⟨0, by simpa using a, by simpa using b⟩
+      · rintro ⟨m, a, b⟩
+        have m1 : (m : ℝ) < 1 := by nlinarith
+        have m2 : (-1 : ℝ) < m := by nlinarith
+        have : m = 0 := by
+          have a1 : m < 1 := by exact_mod_cast m1
+          have a2 : -1 < m := by exact_mod_cast m2
+          omega
+        subst this
+        constructor <;> (push_cast at a b; linarith)
+
+/-- hence a common whole-degree rotation of all wind directions rotates bins and windows together: an
+observation is in the window of bin `kk` iff the rotated observation is in the window of the rotated bin -/
+theorem z0_window_rotation (kk kk' : ℕ) (hkk : kk < 360) (hkk' : kk' < 360) (h wd wd' : ℝ) (hh0 : 0 ≤ h) (hh : h ≤ 89)
+    (hw0 : 0 ≤ wd) (hw : wd < 360) (hw0' : 0 ≤ wd') (hw' : wd' < 360) (rho : ℤ) (mk mw : ℤ)
+    (hk : (kk' : ℝ) = kk + rho + 360 * mk) (hwd : wd' = wd + rho + 360 * mw) :
+    z0InWindow RC kk' h wd' = z0InWindow RC kk h wd := by
+  have e : (z0InWindow RC kk' h wd' = true) ↔ (z0InWindow RC kk h wd = true) := by
+    rw [z0_window_circular kk' hkk' h wd' hh0 hh hw0' hw', z0_window_circular kk hkk h wd hh0 hh hw0 hw]
+    constructor
+    · rintro ⟨m, a, b⟩
+      refine ⟨m + mw - mk, ?_, ?_⟩ <;> (push_cast; rw [hk, hwd] at *; linarith)
+    · rintro ⟨m, a, b⟩
+      refine ⟨m - mw + mk, ?_, ?_⟩ <;> (push_cast; rw [hk, hwd]; linarith)
+  cases h1 : z0InWindow RC kk' h wd' <;> cases h2 : z0InWindow RC kk h wd <;> simp_all
+
 end BLDFM.C19
